@@ -232,11 +232,16 @@ def r3_optimiser_follows_renames(ctx):
     ctx.rule('R-C11.3')
     p = ctx.program
     f = p.func('mutators.app_mutator', 'AppMutator._process_mutation_batch')
-    stores = [n for n in walk_no_nested(f.node)
-              if isinstance(n, ast.Assign) and any(
-                  isinstance(t, ast.Subscript) and
-                  const_str(t.slice) == 'related_model'
-                  for t in n.targets)]
+    from ..util import unit_walk, param_argument
+    f_main = f
+    found = [(g_, n) for g_, n in unit_walk(ctx, f)
+             if isinstance(n, ast.Assign) and any(
+                 isinstance(t, ast.Subscript) and
+                 const_str(t.slice) == 'related_model'
+                 for t in n.targets)]
+    stores = [n for _, n in found]
+    if found:
+        f = found[0][0]
     if not stores:
         ctx.finding(f, None, 'the optimiser never rewrites '
                     "field_attrs['related_model'] of an added relation: an "
@@ -256,6 +261,13 @@ def r3_optimiser_follows_renames(ctx):
         tables = {x.id for n in walk_no_nested(f.node)
                   if isinstance(n, ast.Assign)
                   for x in ast.walk(n.value) if isinstance(x, ast.Name)}
+        if f is not f_main:
+            # helper: its rename-table parameters are fed from the tables of
+            # the optimiser
+            for prm in f.params:
+                for arg in param_argument(ctx, f_main, f, prm):
+                    tables |= {x.id for x in ast.walk(arg)
+                               if isinstance(x, ast.Name)}
         if {'new_model_name', 'new_app_label'} & srcs and \
                 {'model_renames', 'app_label_renames'} <= tables:
             ctx.ok(f, 'related_model of an added relation is rebuilt from '
